@@ -281,6 +281,10 @@ func runC12(ctx *Ctx) error {
 	if err := corrBodies(ctx, ctx.N(800, 10000)); err != nil {
 		return err
 	}
+	// which response definitions are a component response: GenerateResponseDefinitions vs Model/RespDefs.lean
+	if err := corrRespDefs(ctx, ctx.N(800, 10000)); err != nil {
+		return err
+	}
 	// form bodies of flat objects: runtime.MarshalForm / BindForm vs Model/Form.lean
 	if err := corrForm(ctx, ctx.N(600, 8000)); err != nil {
 		return err
